@@ -41,16 +41,12 @@ from . import rules_flow as R  # noqa: E402
 
 
 def _dbg(ctx):
-    f = ctx.facts("default")
-    R.c01_r1(ctx, f)
-    R.c04_r2(ctx, f)
-    R.c05_gate(ctx, f)
-    R.c09_r1(ctx, f)
-    R.c01_r2(ctx, f)
-    R.c04_r1(ctx, f)
-    R.c08_r1(ctx, f)
-    R.c03_r2(ctx, f)
-    R.c11_rules(ctx, f)
+    from . import rules_svg as S
+    f = ctx.facts("svg")
+    S.c12_r1(ctx, f); S.c12_r2(ctx, f); S.c12_r3(ctx, f); S.c12_r4(ctx, f); S.c12_r5(ctx, f); S.c12_r6(ctx, f); S.c12_t1(ctx, f)
+    S.c18_t1(ctx, f); S.c18_r1(ctx, f)
+    S.c19_fn(ctx, f, "convert::svg::SvgBuilder::to_file", 2); S.c19_r3(ctx, f)
+    S.c19_r4(ctx, f, [("<convert::ConvertError as std::convert::From<convert::svg::SvgError>>::from", {"SvgError": "Svg", "IoError": "Io"})])
     return dict(level="other", explanation="debug")
 
 
